@@ -1278,7 +1278,7 @@ func (e *Enc) evalCall(n *SCall, ctx *SpecCtx) (SV, error) {
 			return SV{}, fmt.Errorf("iter() outside a loop step clause")
 		}
 		return e.evalSpec(n.Args[0], ctx.withState(ctx.iter))
-	case "received", "lastrecv", "sent", "lastsent":
+	case "received", "lastrecv", "sent", "lastsent", "lastrecvok":
 		// received(x.f): number of values received through channel field f of x;
 		// lastrecv(x.f): the last of them
 		sf, ok := n.Args[0].(*SField)
@@ -1308,6 +1308,10 @@ func (e *Enc) evalCall(n *SCall, ctx *SpecCtx) (SV, error) {
 			return SV{}, fmt.Errorf("%s: field %s is not a channel", n.Fn, sf.Name)
 		}
 		key := e.structName(stT) + "_" + sanitize(sf.Name)
+		if n.Fn == "lastrecvok" {
+			c := e.comp("chlastok_"+key, "(Array Ref Bool)", "ghost", "G:chan")
+			return SV{T: sel(e.get(ctx.cur, c), base.T), Sort: "Bool"}, nil
+		}
 		if n.Fn == "received" || n.Fn == "sent" {
 			pfx := map[string]string{"received": "chrecv_", "sent": "chsent_"}[n.Fn]
 			c := e.comp(pfx+key, "(Array Ref Int)", "ghost", "G:chan")
